@@ -106,6 +106,8 @@ pub enum PayloadMode {
     Lazy,
     /// never read the payload
     Abandon,
+    /// wait until the simulator allows it, then read everything with one call
+    LateAll,
 }
 
 #[derive(Debug)]
@@ -317,7 +319,13 @@ impl World {
             let mut ch = self.ch.borrow_mut();
             let mode = if kind == GateKind::Publish {
                 match ch.weighted(&self.w_payload.get()) {
-                    0 => PayloadMode::Eager,
+                    0 => {
+                        if ch.chance(1, 3) {
+                            PayloadMode::LateAll
+                        } else {
+                            PayloadMode::Eager
+                        }
+                    }
                     1 => PayloadMode::Lazy,
                     _ => PayloadMode::Abandon,
                 }
